@@ -798,6 +798,29 @@ def eval_lazy(case):
     return out
 
 
+def eval_lazy_iter(case):
+    """a lazily configured context whose scheme list is a ONE-SHOT iterator (as passlib.apps.ldap_context's is) and whose
+    first initialisation fails half-way (a listed hasher's using() raises once): the failed attempt leaves no trace --
+    the next access loads the complete context"""
+    from passlib.context import CryptContext, LazyCryptContext
+
+    k = case["k"]
+    out = []
+    H = make_custom(k)
+    names = ["md5_crypt", H, "des_crypt"]
+    lazy = LazyCryptContext(iter(names), c10custom__max_rounds=9)
+    results = [P.call(lambda: tuple(lazy.schemes())) for _ in range(3)]
+    failed = [i for i, (st, _r) in enumerate(results) if st != "ok"]
+    want = ("md5_crypt", "c10custom", "des_crypt")
+    for i, (st, r) in enumerate(results):
+        if st == "ok" and r != want:
+            out.append(("C10|lazy_iter|partial_context_after_failure", f"access {i + 1} (the custom hasher's using() failed at call {k}; failed accesses: {[j + 1 for j in failed]}) returned the schemes {r!r}, expected {want!r}"))
+            break
+    if results[-1][0] != "ok":
+        out.append((f"C10|lazy_iter|stuck_after_failure:{results[-1][1]}", f"third access still raises {results[-1][1]} (using() fails at call {k} only)"))
+    return out
+
+
 # ---------------------------------------------------------------------------
 # histories of valid / failing changes
 # ---------------------------------------------------------------------------
@@ -912,6 +935,8 @@ def _replay(case):
         return eval_history(case)
     if part == "options":
         return eval_option(case)
+    if part == "lazy_iter":
+        return eval_lazy_iter(case)
     raise core.HarnessError(part)
 
 
@@ -1138,6 +1163,13 @@ def _work(task):
                     acc.axis("kind", "onload_fault")
                     for key, desc in eval_lazy(case):
                         acc.violation(key, desc, case)
+        elif kind == "lazy_iter":
+            for k in (1, 2, 3, 4):
+                case = {"part": "lazy_iter", "k": k}
+                acc.ev()
+                acc.cls("lazy_iter", k)
+                for key, desc in eval_lazy_iter(case):
+                    acc.violation(key, desc, case)
         elif kind == "options":
             for case in task["cases"]:
                 acc.ev()
@@ -1194,6 +1226,7 @@ def run(ctx):
     ocases = [{"part": "options", "hasher": n, "option": o, "value": v, "cat": c} for n, o, v in option_cases() for c in OPTION_CATS]
     tasks += [{"kind": "options", "cases": ocases[i::16]} for i in range(16)]
     ctx.cov["option_cases"] = len(ocases)
+    tasks.append({"kind": "lazy_iter"})
     nsh = 96 if ctx.quick else 256
     tasks += [{"kind": "roundtrip", "cases": rcases[i::nsh]} for i in range(nsh) if rcases[i::nsh]]
     ctx.log(f"{len(rt)} round-trip bases x {len(ROUTES)} routes, {len(fb)} fault bases, {len(hb)} history bases")
